@@ -296,18 +296,28 @@ func VerifC08BlockedInterleave() {
 	p.sendHeaders(1, 0, false, nil, vf.Choice("cuts", 2), 0)
 	p.sendData(1, vf.Bytes("data", 2), false, false, 0)
 	trailersFirst := vf.Choice("trailers-before-other-stream", 2) == 1
+	reset := vf.Choice("stream-1-ends-with-reset", 2) == 1
+	finish1 := func() {
+		if reset { // RST_STREAM behind the held-back DATA: both must still arrive, in that order
+			code := vf.Uint32("rst")
+			vf.Assert(p.writer().WriteRSTStream(1, http2.ErrCode(code)) == nil, "harness-write-rst")
+			p.sent[1] = append(p.sent[1], item{kind: kRST, code: code})
+		} else {
+			p.sendHeaders(1, 1, true, nil, 0, 0)
+		}
+	}
 	if trailersFirst {
-		p.sendHeaders(1, 1, true, nil, 0, 0)
+		finish1()
 		p.sendHeaders(3, 1, true, nil, 0, 0)
 	} else {
 		p.sendHeaders(3, 1, true, nil, 0, 0)
-		p.sendHeaders(1, 1, true, nil, 0, 0)
+		finish1()
 	}
 	vf.Assert(p.pump() == nil, "relay-accepts-frames")
 	// Known finding: header blocks are HPACK-encoded when enqueued but sent after
 	// flow-blocked DATA of their stream, so a block encoded later (another
 	// stream) can reach the peer first and no longer decodes.
-	vf.Known("C08-hpack-encode-order", blocked && trailersFirst)
+	vf.Known("C08-hpack-encode-order", blocked && trailersFirst && !reset)
 	p.collect()
 	if blocked {
 		vf.Assert(w.sw.WriteWindowUpdate(1, 10) == nil, "harness-write-window-update")
